@@ -47,7 +47,10 @@ def ast_hash(f):
     f = getattr(f, "__func__", f)
     if isinstance(f, property):
         f = f.fget
-    src = textwrap.dedent(inspect.getsource(f))
+    try:
+        src = textwrap.dedent(inspect.getsource(f))
+    except (TypeError, OSError):
+        return "no-source:%s" % type(f).__name__       # a class-level value that is not code (a memo stored on the class, say): matches no pin
     t = ast.parse(src)
     for n in ast.walk(t):
         if isinstance(n, ast.FunctionDef) and n.body and isinstance(n.body[0], ast.Expr) \
